@@ -94,10 +94,27 @@ func VerifH20b() {
 	vAssume(vNoNUL(q))
 	fn := func(ctx context.Context, dw DataWriter, params []Parameter) error { return nil }
 	n := -1
+	// RETAINED=1: the handler may keep ONE prepared statement and re-apply the
+	// WithParameters option to it for every Parse (the session stores a copy of
+	// the fields each time), or compose two WithParameters options — the later
+	// one decides
+	retained := vParam("RETAINED", 0) == 1 && nondetBool()
+	composed := vParam("RETAINED", 0) == 1 && !retained && nondetBool()
+	kept := NewStatement(fn)
 	parse := func(ctx context.Context, query string) (PreparedStatements, error) {
 		p := ParseParameters(query)
 		n = len(p)
+		if retained {
+			WithParameters(p)(kept)
+			return Prepared(kept), nil
+		}
+		if composed {
+			return Prepared(NewStatement(fn, WithParameters([]oid.Oid{0, 0, 0}), WithParameters(p))), nil
+		}
 		return Prepared(NewStatement(fn, WithParameters(p))), nil
+	}
+	if retained {
+		vReach("one-statement-retained-and-reconfigured")
 	}
 	srv, err := NewServer(parse, MessageBufferSize(64))
 	vAssert("newserver-ok", err == nil)
